@@ -52,6 +52,15 @@ theorem transfer_prefix_fails (data tls : Bytes) (h1 : data.length < 4294967296)
     (n : Nat) (hn : n < (encodeRead data tls).length) : decodeRead ((encodeRead data tls).take n) = none :=
   decodeRead_prefix_none data tls h1 h2 n hn
 
+/-- **buffered bytes intact**: the connection the new process creates starts with exactly the bytes the old process had
+read and not yet consumed (and the same TLS bytes), so a request half received before the hand-over is completed by
+the bytes that arrive after it. -/
+theorem handover_buffer_intact (buffered tls : Bytes) (h1 : buffered.length < 4294967296) (h2 : tls.length < 4294967296) :
+    handover buffered tls = some (buffered, tls) := by
+  have := transfer_roundtrip buffered tls [] h1 h2
+  simp only [List.append_nil] at this
+  simp [handover, this]
+
 /-- the type byte tells a read transfer (with fd) from a write transfer -/
 theorem transfer_type_distinguishes : recvIsWrite (typeByte false) = true ∧ recvIsWrite (typeByte true) = false := by decide
 
